@@ -114,6 +114,10 @@ func Harness_C13(n int, dealer int, layout int, anteOn int) {
 		vAssert(gs.Status.PreviousRaiseSize == bb, "C13.min-raise-is-big-blind")
 	}
 	vhAccounts(gs, "@blinds")
+	// Inv_ready before the flop (base case of the induction in Harness_Ready): nobody has acted or folded
+	for _, p := range gs.Players {
+		vAssert(!p.Acted && !p.Fold && len(p.AllowedActions) == 0, "C05.inv-ready-preflop@base")
+	}
 	vCover("C13.blinds-posted")
 	if vFork(largest < bb) {
 		vCover("C13.short-big-blind")
